@@ -25,7 +25,7 @@ LineOk(e) ==
     LET d2 == MinD2(cs.q, cs.path, 1) IN
     /\ e.ev = "line" /\ e.out = "ok"
     /\ IntegerSegments(cs.path)
-    /\ e.lenexact /\ e.len = PathLen(cs.path, 1) /\ e.oplen = e.len /\ e.mllen = 2 * e.len
+    /\ e.lenexact /\ e.len = PathLen(cs.path, 1) /\ e.oplen = e.len /\ e.mllen = e.len + PathLen(SubSeq(cs.path, 1, 2), 1)    \* multi-line string of the path and its first segment
     /\ AbsI(e.d2K * d2[2] - d2[1] * K) <= 2 * d2[2]            \* Distance(q)^2 within 2/K
     /\ e.mld2K = e.d2K
 BufferOk(e) ==
